@@ -291,11 +291,17 @@ def main():
     def show(r):
         if isinstance(r, (list, tuple)):
             return [show(x) for x in r]
-        if hasattr(r, "value"):
-            return {"value": r.value}
-        if hasattr(r, "lc") and hasattr(r.lc, "value"):
-            return {"value": r.lc.value, "type": type(r).__name__}
-        return repr(r)
+        try:
+            if hasattr(r, "value"):
+                return {"value": r.value}
+            if hasattr(r, "lc") and hasattr(r.lc, "value"):
+                return {"value": r.lc.value, "type": type(r).__name__}
+        except Exception:  # noqa  (objects with a custom __getattr__, e.g. BranchingValues)
+            pass
+        try:
+            return repr(r)
+        except Exception:  # noqa
+            return "<%s>" % type(r).__name__
 
     # --- own-allocation forging -------------------------------------------------------
     forge = req.get("forge")
@@ -425,6 +431,8 @@ def main():
             rec["exception"] = type(e).__name__
             rec["message"] = str(e)[:200]
             rec["exc_obj"] = e
+            import traceback as _tb
+            rec["traceback_tail"] = "".join(_tb.format_exception(type(e), e, e.__traceback__))[-700:]
         sys.stderr = _real_err
         state["active"] = False
         # files the real code wrote into the scratch cwd, as the contract's ghost disk
